@@ -84,6 +84,16 @@ def poly2laurent (thr : Rat) (ps : List Rat) : Except Err (List Rat) :=
     | [] => .ok []
     | l0 :: rest => .ok (rest.reverse ++ [2 * l0] ++ rest)
 
+/-- `numpy.polynomial.polyutils.trimseq`: drop trailing zeros, keep at least one element -/
+def trimZeros (l : List Rat) : List Rat :=
+  match (l.reverse.dropWhile (· == 0)).reverse with
+  | [] => l.take 1
+  | t => t
+
+/-- `poly2laurent` as the code runs it: NumPy's `poly2cheb` first trims trailing zeros -/
+def poly2laurentNp (thr : Rat) (ps : List Rat) : Except Err (List Rat) :=
+  poly2laurent thr (trimZeros ps)
+
 /-- `PolynomialToLaurentForm` -/
 def polyToLaurentForm (coefs : List Rat) : Except Err (LP Rat) :=
   let half : Rat := 1 / 2
